@@ -29,7 +29,7 @@ def configs(tier: str):
                                 if offset == 'sym' and (faults or N == 2 and B > 1):
                                     continue
                                 out.append(default_cfg(N=N, B=B, errors=errors, failures=failures, cfe=cfe, t=t,
-                                                       offset=offset, finite=False, faults=faults, hook_faults=hooks,
+                                                       offset=offset, finite=False, faults=faults, hook_faults=hooks, post_write=hooks,
                                                        witness_rate=0.01 if tier == 'quick' else 0.03))
     return out
 
@@ -43,15 +43,220 @@ TWINS = [
 
 def finding_key(cfg: dict, cand: dict) -> str:
     bad = cand['replay']['bad']
+    if cfg.get('part') == 'natural':
+        return f"natural:{cfg['prog']},errors={cfg['errors']},cfe={cfg['cfe']},B={cfg['B']}:{bad[0] if bad else '?'}"
     return (f"errors={cfg['errors']},failures={cfg['failures']},cfe={cfg['cfe']},B={cfg['B']},N={cfg['N']},"
             f"faults={cfg['faults']},hooks={cfg['hook_faults']},t={cfg['t']},offset={cfg['offset']}:{bad[0] if bad else '?'}")
+
+
+# -- natural faults: parser-built models whose equations fault by themselves ---------------------------------------
+NATURAL_PROGRAMS = {
+    'div': 'Y = X / Z',
+    'log': 'Y = log(X)',
+    'exp': 'Y = exp(X)',
+    'sub': 'Y = X - Z',
+    'chain': 'A = X / Z\nB = A + 1',
+    'chain3': 'A = exp(X)\nB = A - Z',
+}
+
+
+def natural_configs(tier: str):
+    out = []
+    for name in NATURAL_PROGRAMS:
+        if tier == 'quick' and name not in ('div', 'log', 'exp'):
+            continue   # chains and x - z need IEEE subtraction of nested terms: 10-60 s per configuration (thorough tier)
+        for errors in ('raise', 'skip', 'ignore', 'replace'):
+            for cfe in (True, False):
+                for B in ((1, 2) if tier == 'quick' else (1, 2, 3)):
+                    if tier == 'quick' and B == 2 and (name == 'exp' or errors == 'replace'):
+                        continue
+                    out.append({'part': 'natural', 'prog': name, 'errors': errors, 'failures': 'ignore' if B == 1 else 'raise', 'cfe': cfe, 'B': B,
+                                'L': 2, 't': 1, 'twin': None})
+    return out
+
+
+def explore_any(cfg: dict) -> dict:
+    if cfg.get('part') == 'natural':
+        return explore_natural(cfg)
+    from checks.loopfam import explore_config
+    return explore_config(cfg)
+
+
+def explore_natural(cfg: dict) -> dict:
+    """Full solve_t on a parser-built model over symbolic data with IEEE arithmetic and NumPy's warning rules;
+    the per-pass events (values, first warning statement) are derived by the AST reference interpreter and fed
+    to the same reference state machine as the scripted family."""
+    import time
+    import warnings
+
+    import numpy as np
+    import z3
+
+    import fsic
+    from checks import loopfam as lf
+    from gram import Bin, Call, Env, Eq, Num, Var, evaluation_order, interp
+    from gram.pipeline import REF_FUNCS
+    from loopmodel import NONE, WARN, Script, ref_solve_t
+    from symx import values as sv
+    from symx.core import Ctx, cur
+    from symx.src import ConSrc, SymSrc, witness
+    from symx.values import SFloat, fpval
+
+    t_start = time.time()
+    text = NATURAL_PROGRAMS[cfg['prog']]
+    prog = {
+        'div': (Eq(Var('Y'), Bin('/', Var('X'), Var('Z'))),),
+        'log': (Eq(Var('Y'), Call('log', (Var('X'),))),),
+        'exp': (Eq(Var('Y'), Call('exp', (Var('X'),))),),
+        'sub': (Eq(Var('Y'), Bin('-', Var('X'), Var('Z'))),),
+        'chain': (Eq(Var('A'), Bin('/', Var('X'), Var('Z'))), Eq(Var('B'), Bin('+', Var('A'), Num('1')))),
+        'chain3': (Eq(Var('A'), Call('exp', (Var('X'),))), Eq(Var('B'), Bin('-', Var('A'), Var('Z')))),
+    }[cfg['prog']]
+    Model = fsic.build_model(fsic.parse_model(text))
+    names = list(Model.NAMES)
+    L, t, B = cfg['L'], cfg['t'], cfg['B']
+    ctx = Ctx(budget_s=600, timeout_ms=30000)
+    holder: dict = {}
+    twin = cfg.get('twin')
+
+    def run(src, symbolic: bool):
+        dtype = object if symbolic else float
+        m = Model(list(range(L)), dtype=dtype)
+        cells = {n: [src.f(f'{n}_{j}') for j in range(L)] for n in names}
+        for n in names:
+            for j in range(L):
+                m.__dict__['_' + n][j] = cells[n][j]
+        tol = src.f('tol')
+        status0 = [str(x) for x in m.status]
+        kw = dict(max_iter=B, tol=tol, errors=cfg['errors'], failures=cfg['failures'], catch_first_error=cfg['cfe'])
+        out = {}
+        try:
+            with warnings.catch_warnings():
+                warnings.simplefilter('ignore')
+                if symbolic:
+                    with lf.shimmed():
+                        r = m.solve_t(t, **kw)
+                else:
+                    with np.errstate(divide='warn', over='warn', invalid='warn', under='ignore'):
+                        r = m.solve_t(t, **kw)
+            out.update(kind='ret', ret=r, exc=None, cause=None)
+        except Exception as e:  # noqa: BLE001
+            out.update(kind='exc', ret=None, exc=type(e).__name__, cause=type(e.__cause__).__name__ if e.__cause__ is not None else None)
+        out['status'], out['iters'] = str(m.status[t]), int(m.iterations[t])
+        # reference: per-pass events from the AST interpreter under the same arithmetic / warning rules
+        rcells = {n: [src.f(f'{n}_{j}') for j in range(L)] for n in names}
+        order = evaluation_order(prog)
+        check = [eq.target.name for eq in order]
+        sc = Script(len(check), B)
+        scratch = {n: list(v) for n, v in rcells.items()}
+        for p in range(1, B + 1):
+            first_warn = None
+            vals = []
+            for i, eq in enumerate(order):
+                with warnings.catch_warnings(record=True) as w:
+                    warnings.simplefilter('always')
+                    if symbolic:
+                        v = interp(eq.expr, Env(scratch, t, REF_FUNCS))
+                    else:
+                        with np.errstate(divide='warn', over='warn', invalid='warn', under='ignore'):
+                            v = interp(eq.expr, Env({k: np.array(x) for k, x in scratch.items()}, t, dict(REF_FUNCS, log=np.log, exp=np.exp)))
+                if w and first_warn is None:
+                    first_warn = i
+                vals.append(v)
+                scratch[eq.target.name][t] = v
+            sc.v[p] = vals
+            sc.kind[p] = WARN if first_warn is not None else NONE
+            sc.fs[p] = first_warn or 0
+            out.setdefault('warned', []).append(first_warn)
+            if twin == 'no_warn':
+                sc.kind[p] = NONE
+        ref = ref_solve_t(rcells, '-', -1, sc, t=t, L=L, min_iter=0, max_iter=B, tol=src.f('tol'), offset=0, failures=cfg['failures'],
+                          errors=cfg['errors'], cfe=cfg['cfe'], endogenous=check, check=check)
+        bad = []
+        if out['kind'] != ref.kind:
+            bad.append(f"outcome impl={out['kind']}({out['exc']}) ref={ref.kind}({ref.exc})")
+        elif ref.kind == 'ret' and out['ret'] != ref.ret:
+            bad.append(f"return impl={out['ret']} ref={ref.ret}")
+        elif ref.kind == 'exc' and (out['exc'] != ref.exc or (ref.cause is not None and out['cause'] != ref.cause)):
+            bad.append(f"exception impl={out['exc']}/{out['cause']} ref={ref.exc}/{ref.cause}")
+        if ref.status is not None and out['status'] != ref.status:
+            bad.append(f"status[t] impl={out['status']!r} ref={ref.status!r}")
+        if ref.iters is not None and out['iters'] != ref.iters:
+            bad.append(f"iterations[t] impl={out['iters']} ref={ref.iters}")
+        terms = []
+        for n in names:
+            for j in range(L):
+                a, b = m.__dict__['_' + n][j], ref.cells[n][j]
+                if symbolic:
+                    at = a.t if isinstance(a, SFloat) else fpval(float(a))
+                    bt = b.t if isinstance(b, SFloat) else fpval(float(b))
+                    if not at.eq(bt) and cur()._check(at != bt) == 'sat':
+                        bad.append(f'cell {n}[{j}] differs')
+                        terms.append(at != bt)
+                elif not lf._same_bits(float(a), float(b)):
+                    bad.append(f'cell {n}[{j}] impl={float(a)!r} ref={float(b)!r}')
+        return bad, terms, out
+
+    def fn():
+        src = SymSrc()
+        holder['src'] = src
+        sv.NATURAL[0] = True
+        try:
+            with warnings.catch_warnings():
+                warnings.simplefilter('ignore')
+                return run(src, True)
+        finally:
+            sv.NATURAL[0] = False
+
+    res = {'cfg': dict(cfg), 'paths': 0, 'mismatch_paths': 0, 'candidates': [], 'outcomes': {}, 'witness_checked': 0, 'witness_bad': [],
+           'spurious_under_uf': 0, 'nontrivial_paths': 0}
+    import random
+    rng = random.Random(cfg.get('seed', 0))
+    for path in ctx.explore(fn):
+        res['paths'] += 1
+        if path.outcome[0] == 'exc':
+            raise RuntimeError(f'harness raised on a path: {path.outcome[1]!r}')
+        bad, terms, out = path.outcome[1]
+        res['nontrivial_paths'] += 1
+        okey = f"{out['kind']}:{out['exc'] or out['ret']}:{out['status']}:{out['iters']}"
+        res['outcomes'][okey] = res['outcomes'].get(okey, 0) + 1
+        if bad:
+            res['mismatch_paths'] += 1
+            if len(res['candidates']) >= 2:
+                continue
+            inp = witness(ctx, holder['src'], [z3.Or(*terms)] if terms and len(bad) == len(terms) else [])
+            if inp is None:
+                continue
+            cb, _, cout = run(ConSrc(inp), False)
+            res['candidates'].append({'symbolic': bad, 'inputs': inp, 'replay': {'bad': cb, 'impl': cout, 'ref': None}})
+        elif rng.random() < 0.3 and res['witness_checked'] < 6:
+            # path witness: concrete data on this path, real NumPy warnings, must agree with the symbolic outcome
+            inp = witness(ctx, holder['src'], [], timeout_ms=15000)
+            if inp is not None:
+                cb, _, cout = run(ConSrc(inp), False)
+                res['witness_checked'] += 1
+                # ordinary quotients/products are uninterpreted, so WHICH of '.'/'F' a fault-free path ends in may differ
+                # between the solver's model and real arithmetic; everything driven by special values must coincide:
+                # which statement warned in each pass, and whether the period ended through the fault machinery
+                def klass(o):
+                    return (o['exc'], o['cause'], o['status'], o['iters']) if (o['status'] in ('E', 'S') or o['exc'] == 'SolutionError') else 'convergence-driven'
+                same = klass(cout) == klass(out) and cout.get('warned') == out.get('warned')
+                if cb or not same:
+                    res['witness_bad'].append({'inputs': inp, 'symbolic_impl': out, 'concrete_impl': cout, 'concrete_bad': cb})
+    res['exhausted'] = ctx.exhausted
+    res['smt_samples'] = list(ctx.samples)
+    res['stats'] = ctx.stats.as_dict()
+    res['assumptions'] = list(ctx.assumptions) + ["NumPy default error state: divide/over/invalid warn, under ignore; log/exp finite on finite in-range arguments"]
+    res['shim_calls'] = {}
+    res['wall_s'] = round(time.time() - t_start, 3)
+    return res
 
 
 def main() -> int:
     tier = vlib.tier()
     rep = vlib.Report('C06', 'model_checking', tier)
     run_family(
-        rep, configs(tier), TWINS,
+        rep, configs(tier) + natural_configs(tier), TWINS + [{'part': 'natural', 'prog': 'div', 'errors': 'raise', 'failures': 'ignore', 'cfe': True, 'B': 1, 'L': 2, 't': 1, 'twin': 'no_warn'}],
         functions=['fsic.core.models.BaseModel.solve_t'],
         bounds={'max_iter': f"0..{2 if tier == 'quick' else 4}", 'check_variables': '0..2', 'span_length': 3,
                 'errors': ['raise', 'skip', 'ignore', 'replace', 'bogus'], 'failures': ['raise', 'ignore'],
@@ -63,8 +268,9 @@ def main() -> int:
                  "statuses/iterations after an exception under a policy other than 'raise' (unspecified by the statement)",
                  "'replace': baseline of the next comparison is the zero-substituted vector (interpretation, DESIGN C06)",
                  'parser-built models whose equations fault naturally (see C06 natural-fault variant)'],
-        key_fn=finding_key,
+        key_fn=finding_key, explore=explore_any,
     )
+    rep.coverage['natural_fault_models'] = NATURAL_PROGRAMS
     return rep.finish()
 
 
